@@ -1,7 +1,15 @@
 (* C05 - every record type's master-file text parses back to an equal record.
-   Statements only; the proofs are in Proofs/Tok*.v and Proofs/RdText*.v. *)
-From DV Require Import Base.Prelude Model.TokM Proofs.TokEsc Proofs.TokTxt.
+   Statements only; the proofs are in Proofs/Tok*.v and Proofs/RdText*.v.
+   Models: Model/TokM.v (dns/tokenizer.py, text helpers of dns/rdata.py), Model/RdTextM.v (the
+   to_styled_text / from_text pairs of the regular rdata types as a field language),
+   Model/NameM.v (dns/name.py, shared). *)
+From DV Require Import Base.Prelude Model.NameM Model.TokM Model.RdTextM.
+From DV Require Import Proofs.NameValid Proofs.NameOrder Proofs.NameText.
+From DV Require Import Proofs.TokEsc Proofs.TokTxt Proofs.TokWords Proofs.TokDec Proofs.TokHex
+     Proofs.TokShape Proofs.TokGeneric Proofs.RdTextName Proofs.RdText Proofs.RdTextRel.
 Open Scope Z_scope.
+
+(* ------------------------------------------------------------------ character-strings *)
 
 (* TXT-like records (TXT, SPF, AVC, NINFO, RESINFO, WALLET): the text produced by to_styled_text for
    any non-empty list of octet strings (all 256 octet values, each string <= 255 octets) followed by
@@ -42,3 +50,192 @@ Theorem quotedcp_refuted :
   exists s, all_bytes s = true /\ (do u <- ue_loop (escapify s) []; utf8_encode u) <> Ok s.
 Proof. exact codepoint_path_refuted. Qed.
 Print Assumptions quotedcp_refuted.
+
+(* ------------------------------------------------------------------ numbers, hex, base64, chunking *)
+
+(* f"{n}" read back by Tokenizer.as_uintN (int() of the token), any width *)
+Theorem decimal_field_roundtrip : forall maxv n,
+  0 <= n <= maxv -> as_uint maxv (mkTok tIDENT (dec n) false None) 10 = Ok n.
+Proof. exact as_uint_dec. Qed.
+Print Assumptions decimal_field_roundtrip.
+
+Theorem ttl_field_roundtrip : forall n, 0 <= n <= MAX_TTL -> ttl_from_text (dec n) = Ok n.
+Proof. exact ttl_from_text_dec. Qed.
+Print Assumptions ttl_field_roundtrip.
+
+Theorem hex_roundtrip : forall d, all_bytes d = true -> unhexlify (hexlify d) = Ok d.
+Proof. exact unhexlify_hexlify. Qed.
+Print Assumptions hex_roundtrip.
+
+Theorem base64_roundtrip : forall d, all_bytes d = true -> b64decode (b64encode d) = Ok d.
+Proof. exact b64decode_b64encode. Qed.
+Print Assumptions base64_roundtrip.
+
+(* _wordbreak with ANY chunk size and any separator made of blanks: the tokenizer's
+   concatenate_remaining_identifiers returns the unbroken string (hex and base64 alphabets consist of
+   "safe" characters: no delimiter, no backslash) *)
+Theorem chunked_text_roundtrip : forall w chunk sep rest allow_empty,
+  forallb safe w = true -> forallb is_blank sep = true ->
+  (rest = [] \/ exists r, rest = 10 :: r) -> (allow_empty = true \/ w <> []) ->
+  exists te st, is_eol_or_eof te = true /\ ungot st = Some te /\
+    concatenate_remaining_identifiers (mkSt (wordbreak w chunk sep ++ rest) 0%nat false None) allow_empty
+    = Ok (w, st).
+Proof.
+  intros w chunk sep rest ae Hw Hs Hr Hne.
+  apply concatenate_chunked; [apply wordbreak_chunked; assumption|exact Hr|exact Hne].
+Qed.
+Print Assumptions chunked_text_roundtrip.
+
+Theorem hex_and_base64_alphabets_are_safe : forall d, all_bytes d = true ->
+  forallb safe (hexlify d) = true /\ forallb safe (b64encode d) = true.
+Proof. intros d H. split; [apply (hexlify_safe d H)|apply (b64encode_safe d H)]. Qed.
+Print Assumptions hex_and_base64_alphabets_are_safe.
+
+(* ------------------------------------------------------------------ RFC 3597 generic form *)
+
+(* unknown type: GenericRdata.to_styled_text / dns.rdata.from_text, any hex chunk size, blank separators *)
+Theorem generic_roundtrip : forall d chunk sep rest,
+  all_bytes d = true -> forallb is_blank sep = true -> (rest = [] \/ exists r, rest = 10 :: r) ->
+  rdata_from_text_generic (generic_to_text d chunk sep ++ rest) = Ok d.
+Proof. exact generic_roundtrip_unknown. Qed.
+Print Assumptions generic_roundtrip.
+
+(* known type written in generic syntax: for ANY type whose wire codec round-trips on v (fw/tw are
+   the type's from_wire / to_wire), dns.rdata.from_text of the generic text of to_wire(v) is v *)
+Theorem generic_roundtrip_known_type : forall (V : Type) (ft : tstate -> res (V * tstate))
+    (fw : list Z -> res V) (tw : V -> res (list Z)) (v : V) (w : list Z) chunk sep rest,
+  tw v = Ok w -> fw w = Ok v -> all_bytes w = true -> forallb is_blank sep = true ->
+  (rest = [] \/ exists r, rest = 10 :: r) ->
+  rdata_from_text ft fw tw (generic_to_text w chunk sep ++ rest) = Ok v.
+Proof. intros V. exact (@generic_roundtrip_known V). Qed.
+Print Assumptions generic_roundtrip_known_type.
+
+(* instance with a real wire codec: the TXT-like types *)
+Theorem generic_roundtrip_txt : forall strings chunk sep rest,
+  strings <> [] -> Forall (fun s => all_bytes s = true /\ zlen s <= 255) strings ->
+  forallb is_blank sep = true -> (rest = [] \/ exists r, rest = 10 :: r) ->
+  rdata_from_text_txt (generic_to_text (txt_to_wire strings) chunk sep ++ rest) = Ok strings.
+Proof. exact txt_generic_roundtrip. Qed.
+Print Assumptions generic_roundtrip_txt.
+
+Example generic_roundtrip_nonvacuous :
+  rdata_from_text_generic (generic_to_text [0; 255; 16] 2 [32; 9] ++ [10]) = Ok [0; 255; 16]
+  /\ generic_to_text [0; 255; 16] 2 [32; 9] = [92; 35; 32; 51; 32; 48; 48; 32; 9; 102; 102; 32; 9; 49; 48].
+Proof. split; vm_compute; reflexivity. Qed.
+
+(* ------------------------------------------------------------------ whole records *)
+
+(* The regular rdata types as field lists (schema_of): decimal fields of every width, TTLs, names,
+   quoted character-strings, rest-of-line hex / base64, TXT strings.  For every well-formed schema,
+   all field values within the constructor's ranges, every style whose chunk separators are blanks
+   (any chunk sizes, any origin/relativize) and every parsing context (origin, relativize,
+   relativize_to): dns.rdata.from_text of the printed text returns the values, names being mapped by
+   the name-level effect `name_path` of the two relativization choices (no text involved). *)
+Theorem text_roundtrip_schema : forall sty c fs vs text vs' rest fw tw,
+  schema_wf fs -> Forall2 val_ok fs vs -> style_ok sty -> (rest = [] \/ exists r, rest = 10 :: r) ->
+  record_to_text sty fs vs = Ok text -> expects sty c fs vs = Ok vs' ->
+  record_from_text_gen fw tw c fs (text ++ rest) = Ok vs'.
+Proof. exact record_roundtrip. Qed.
+Print Assumptions text_roundtrip_schema.
+
+(* every schema of the table is well-formed *)
+Theorem schema_table_wf : forall rdtype fs, schema_of rdtype = Some fs -> schema_wf fs.
+Proof.
+  intros rdtype fs. unfold schema_of.
+  repeat match goal with
+         | |- (if ?b then _ else _) = _ -> _ => destruct b; [intros H; inversion H; subst; cbn; tauto|]
+         end.
+  discriminate.
+Qed.
+Print Assumptions schema_table_wf.
+
+(* names printed and parsed without any origin: exactly the same values *)
+Theorem text_roundtrip_asis : forall sty c fs vs text rest fw tw,
+  schema_wf fs -> Forall2 val_ok fs vs -> style_ok sty -> (rest = [] \/ exists r, rest = 10 :: r) ->
+  s_origin sty = None -> p_origin c = None -> p_relativize_to c = None ->
+  record_to_text sty fs vs = Ok text ->
+  record_from_text_gen fw tw c fs (text ++ rest) = Ok vs.
+Proof. exact record_roundtrip_asis. Qed.
+Print Assumptions text_roundtrip_asis.
+
+(* relativity: a name below the (absolute) origin, relativized on output and read back with the same
+   origin, is relativize(n, origin) when relativize=True and a name equal to n up to ASCII case
+   (the origin's own spelling) when relativize=False *)
+Theorem name_relativity_relout : forall sty n x o (rel_in : bool),
+  Valid n -> Valid (x :: o) -> is_absolute (x :: o) = true -> is_subdomain n (x :: o) = true ->
+  exists r, relativize n (x :: o) = Ok r /\ ci_equal (r ++ x :: o) n /\
+    name_path (sty_rel sty (x :: o) true) (mkPctx (Some (x :: o)) rel_in None) n
+    = Ok (if rel_in then r else r ++ x :: o).
+Proof. exact name_path_relout. Qed.
+Print Assumptions name_relativity_relout.
+
+(* a relative name made absolute on output reads back, without origin, as the absolute name *)
+Theorem name_relativity_absout : forall sty r x o,
+  Valid (r ++ x :: o) -> is_absolute r = false ->
+  name_path (sty_rel sty (x :: o) false) (mkPctx None true None) r = Ok (r ++ x :: o).
+Proof. exact name_path_absout. Qed.
+Print Assumptions name_relativity_absout.
+
+(* non-vacuity: an SOA and a NAPTR with awkward octets, origin ex., relativized output, chunking *)
+Definition ex_origin : name := [[101; 120]; []].
+Definition ex_sty : style := mkStyle (Some ex_origin) true 3 [32; 9] 5 [32].
+Definition ex_ctx : pctx := mkPctx (Some ex_origin) true None.
+Definition ex_soa : list tval :=
+  [VName [[64; 46; 0]; [101; 120]; []]; VName [[]]; VInt 4294967295; VInt 0; VInt 1; VInt 7; VInt 2147483647].
+Definition ex_naptr : list tval :=
+  [VInt 65535; VInt 0; VBytes [34; 92; 200]; VBytes []; VBytes [59; 40]; VName [[255]; [69; 88]; []]].
+Definition ex_soa_fs : list tfield := [FName; FName; u32; FTtl; FTtl; FTtl; FTtl].
+Definition ex_naptr_fs : list tfield := [u16; u16; cstr; cstr; cstr; FName].
+
+Example text_roundtrip_schema_hypotheses :
+  schema_of 6 = Some ex_soa_fs /\ schema_of 35 = Some ex_naptr_fs /\ style_ok ex_sty /\
+  Forall2 val_ok ex_soa_fs ex_soa /\ Forall2 val_ok ex_naptr_fs ex_naptr.
+Proof.
+  assert (N : forall n, validate_labels n = Ok tt -> Forall (fun l => forallb is_byte l = true) n -> Valid n /\ AllBytes n).
+  { intros n H1 H2. split; [apply validate_iff, H1|]. unfold AllBytes.
+    eapply Forall_impl; [|exact H2]. intros l Hl. rewrite forallb_forall in Hl. apply Forall_forall.
+    intros x Hx. apply is_byte_range, Hl, Hx. }
+  split; [reflexivity|]. split; [reflexivity|]. split.
+  { split; [reflexivity|]. split; [reflexivity|]. apply N; [reflexivity|repeat constructor]. }
+  split.
+  - unfold ex_soa_fs, ex_soa, u32. repeat (apply Forall2_cons || apply Forall2_nil); cbn [val_ok];
+      try (apply N; [reflexivity|repeat constructor]); unfold MAX_TTL; lia.
+  - unfold ex_naptr_fs, ex_naptr, u16, cstr. repeat (apply Forall2_cons || apply Forall2_nil); cbn [val_ok];
+      try (apply N; [reflexivity|repeat constructor]); try lia;
+      (split; [reflexivity|]; split; [left; reflexivity|]; split; [right; unfold zlen; cbn; lia|discriminate]).
+Qed.
+
+Example text_roundtrip_schema_computed :
+  (do text <- record_to_text ex_sty ex_soa_fs ex_soa; record_from_text ex_ctx ex_soa_fs (text ++ [10]))
+  = Ok (VName [[64; 46; 0]] :: tl ex_soa)
+  /\ expects ex_sty ex_ctx ex_soa_fs ex_soa = Ok (VName [[64; 46; 0]] :: tl ex_soa)
+  /\ (do text <- record_to_text ex_sty ex_naptr_fs ex_naptr; record_from_text ex_ctx ex_naptr_fs text)
+    = Ok [VInt 65535; VInt 0; VBytes [34; 92; 200]; VBytes []; VBytes [59; 40]; VName [[255]]].
+Proof. split; [vm_compute; reflexivity|]. split; vm_compute; reflexivity. Qed.
+
+(* ------------------------------------------------------------------ accepted from text => encodable *)
+
+(* every field value returned by from_text lies in the range of its wire field (struct.pack cannot
+   fail), and every name satisfies the DNS length limits.  Partial: the hand-written types (LOC,
+   GPOS, WKS, APL, SVCB, ...) are covered by the oracle only. *)
+Theorem text_then_wire_partial : forall c f st v st',
+  parse_field c f st = Ok (v, st') -> val_encodable f v.
+Proof. exact parse_field_encodable. Qed.
+Print Assumptions text_then_wire_partial.
+
+Theorem name_from_text_valid : forall c t n, as_name c t = Ok n -> Valid n.
+Proof. exact as_name_valid. Qed.
+Print Assumptions name_from_text_valid.
+
+(* ------------------------------------------------------------------ known finding, stated *)
+
+(* C05-empty-field-no-text: a record whose rest-of-line hex/base64 field is empty prints a text that
+   from_text rejects (SSHFP 1 1 with an empty fingerprint) *)
+Theorem empty_rest_field_refuted :
+  exists fs vs text, schema_of 44 = Some fs /\ record_to_text (mkStyle None false 128 [32] 32 [32]) fs vs = Ok text /\
+    record_from_text (mkPctx None true None) fs (text ++ [10]) <> Ok vs.
+Proof.
+  exists [u8; u8; FHexRest], [VInt 1; VInt 1; VBytes []], [49; 32; 49; 32].
+  split; [reflexivity|]. split; [reflexivity|]. vm_compute. discriminate.
+Qed.
+Print Assumptions empty_rest_field_refuted.
